@@ -5,7 +5,7 @@ OneByte iff len = 1, Two-Way otherwise), reverse Two-Way relation (1 <= critical
 len, 2*shift >= len), Some(i) => i + needle.len() <= haystack.len(), POST-VERIFIED for reverse Rabin-Karp, reverse
 Two-Way large period and memmem::FinderRev::rfind, and the reverse shift-memory discipline
   MEMO  after an iteration shift == needle.len(), or the last move of `pos` was exactly -period and shift >= period;
-the empty needle answers Some(haystack.len())."""
+the empty needle answers Some(haystack.len()); SUFFIX-STEP and PERIOD-TEST for Suffix::reverse / Shift::reverse."""
 from . import c03
 
 PID = 'C04'
